@@ -197,9 +197,9 @@ def run(ctx):
             args.append(("singles", 5, chunk, ctx.seed))
     for n in (5, 6):
         for chunk in fw.split(members.orbit_reps(n), 2 if n == 5 else 16):
-            args.append(("members", n, chunk, 4 if q else 20, ctx.seed))
+            args.append(("members", n, chunk, 4 if q else 100, ctx.seed))
     for i in range(16):
-        args.append(("hyp", ctx.seed * 1000 + i, 80 if q else 3000, ctx.deadline))
+        args.append(("hyp", ctx.seed * 1000 + i, 80 if q else 30000, ctx.deadline))
     rep = fw.run_shards(ctx, "props.c15", "shard", args)
     rep.extra["exhaustive"] = False
     rep.extra["exhaustive_part"] = "all ordered pairs of groups for n=2,3; all groups n<=4 x all qubits" + ("" if q else "; all five-qubit groups x all qubits")
